@@ -100,7 +100,7 @@ def wiring_of_trace(ctx, tree, tr):
     """the translator's reading of the configuration this trace was run with (ini + the job's overrides)"""
     job = tr["job"]
     ini = job["ini"] if os.path.isabs(job["ini"]) else os.path.join(ctx.root, "jellyfysh", job["ini"])
-    config = translate.read_config(ini, job.get("overrides"))
+    config = translate.read_config(ini, job.get("overrides"), text=job.get("ini_text"))
     return translate.wiring_of_config(tree, config, translate.cfg_name(job["ini"]), job["ini"])
 
 
